@@ -51,12 +51,19 @@ XMine == /\ Ev("MineBlock")
 \* (own_missing: blocks the node still holds whose stored copy lacks a confirm the node itself had published before this reading)
 XFinal == /\ Ev("Final") /\ Same(E) /\ E.new = <<>>
           /\ ("own_missing" \in DOMAIN E => E.own_missing = <<>>)
+          \* (stable rounds: the confirm the background goroutine stored for a block is published, once)
+          /\ ("pub_never" \in DOMAIN E => E.pub_never = <<>> /\ E.pub_twice = <<>>)
           /\ \A b \in known \ {G} : conf[b] \subseteq ConfOf(E)[b]
           /\ AdoptX(E) /\ Extend(E)
 XEmit == /\ Ev("Emit")
          /\ E.valid /\ E.b # -1 /\ E.height_ok
          /\ UNCHANGED <<parent, miner, nd, self, known, conf, stable, head>>
-XNext == TReset \/ XBlock \/ XConfirms \/ XMine \/ XFinal \/ XEmit
+\* a head read outside chainLock is the head after one of the calls around the read (window, assembled by the driver from the
+\* sequence numbers it read before and after)
+XRead == /\ Ev("Read")
+         /\ E.got \in ToSet(E.window)
+         /\ UNCHANGED <<parent, miner, nd, self, known, conf, stable, head>>
+XNext == TReset \/ XBlock \/ XConfirms \/ XMine \/ XFinal \/ XEmit \/ XRead
 XSpec == /\ l = 1 /\ parent = <<>> /\ miner = <<>> /\ nd = 0 /\ self = 0 /\ known = {G} /\ conf = <<>> /\ stable = G /\ head = G
          /\ [][XNext]_mvars
 ====
